@@ -73,12 +73,7 @@ def rule_listing(ck):
         diff = next(((i, g, w) for i, (g, w) in enumerate(zip(gl + [None] * len(wl), wl + [None] * len(gl))) if g != w), None)
         ck.violation(where, f"the listing differs from 'file name, then OOOOOO name sorted by value then name, one line per ordinary symbol': first difference at line {diff[0] + 1}: got {diff[1]!r}, expected {diff[2]!r}",
                      construct="listing text", expected=want, found=got)
-    # symbols are all waited before the listing is made (values are final)
-    fn = repo.func("compiler::Compiler.compile_and_link_files")
-    loops = [n for n in walk_local(fn) if isinstance(n, ast.For) and "self.symbols" in norm_text(n.iter) and any(isinstance(c, ast.Call) and norm_text(c.func) == "wait" for c in ast.walk(n))]
-    ck.instance("final-wait", {"closing wait over the symbol table": bool(loops)}, fn="compiler::Compiler.compile_and_link_files")
-    if not loops:
-        ck.violation("compiler::Compiler.compile_and_link_files", "symbols that were never used are not evaluated before the listing is written: the listing can miss them or evaluate them outside a report scope", construct="closing wait over symbols")
+    # (that every symbol is evaluated before the listing is made is decided by C02.R7w, by execution)
 
 
 def rule_P8(ck):
